@@ -93,10 +93,10 @@ let dispatch fn a =
   let t i = text_of_string a.(i) and b i = bool_of_string' a.(i) in
   match fn with
   | "clean" -> string_of_text (x_clean (t 0))
-  | "iban_new" -> out string_of_text (x_iban_new (t 0) (b 1) (b 2))
-  | "iban_validate" -> out string_of_bool' (x_iban_validate (b 1) (x_clean (t 0)))
-  | "iban_is_valid" -> out string_of_bool' (x_iban_is_valid (x_clean (t 0)))
-  | "iban_from_bban" -> out string_of_text (x_iban_from_bban (t 0) (t 1) (b 2) (b 3))
+  | "iban_new" -> out string_of_text (x_iban_new (Lazy.force banks) (t 0) (b 1) (b 2))
+  | "iban_validate" -> out string_of_bool' (x_iban_validate (Lazy.force banks) (b 1) (x_clean (t 0)))
+  | "iban_is_valid" -> out string_of_bool' (x_iban_is_valid (Lazy.force banks) (x_clean (t 0)))
+  | "iban_from_bban" -> out string_of_text (x_iban_from_bban (Lazy.force banks) (t 0) (t 1) (b 2) (b 3))
   | "iban_formatted" -> string_of_text (x_iban_formatted (x_clean (t 0)))
   | "spec_iban_accept" -> string_of_bool' (s_iso_ok (x_clean (t 0)))
   | "spec_from_bban" -> "OK " ^ string_of_text (t 0 @ s_check_digits (t 0) (t 1) @ t 1)
@@ -128,7 +128,7 @@ let dispatch fn a =
     let cc = x_iban_cc s and bb = x_iban_bban s in
     let comps = List.map (fun k -> out string_of_text (x_bban_component cc bb k)) (texts_of_string a.(1)) in
     String.concat " / " ([string_of_text cc; string_of_text (x_iban_dd s); string_of_text bb] @ comps
-       @ [out string_of_text (x_iban_from_bban cc bb true false)])
+       @ [out string_of_text (x_iban_from_bban (Lazy.force banks) cc bb true false)])
   | "merge_dicts" ->
     (match parse_json a.(0), parse_json a.(1) with
      | JObj l, JObj r -> print_json true (JObj (x_merge_dicts l r))
@@ -146,7 +146,7 @@ let dispatch fn a =
   | "bic_names" | "bic_short_names" ->
     String.concat "," (List.map (fun i -> string_of_int (int_of_n i)) (x_bank_ids (Lazy.force banks) (t 0)))
   | "iban_bank_lookup" ->
-    (match x_iban_from_bban (t 0) (t 1) false false with
+    (match x_iban_from_bban (Lazy.force banks) (t 0) (t 1) false false with
      | Ok s ->
        let cc = x_iban_cc s and bb = x_iban_bban s in
        let bank = (match x_bban_bank (Lazy.force banks) cc bb with
@@ -163,6 +163,15 @@ let dispatch fn a =
     let arr = Lazy.force bank_arr in
     if i < 0 || i >= Array.length arr then "0" else string_of_bool' (s_wf_bank arr.(i))
   | "spec_wf_country" -> string_of_bool' (s_wf_country (t 0))
+  | "validate_national" -> out string_of_bool' (x_national (Lazy.force banks) (t 0) (x_clean (t 1)))
+  | "from_components" ->
+    out string_of_text (x_from_components (t 0) [(k_bank, t 1); (k_branch, t 2); (k_account, t 3)])
+  | "generate" -> out string_of_text (x_generate (Lazy.force banks) (t 0) (t 1) (t 2) (t 3))
+  | "spec_national_accept" ->
+    let s = x_clean (t 0) in
+    string_of_bool' (s_iso_ok s && s_published_ok (x_iban_cc s) (x_iban_bban s))
+  | "spec_only_rejects" -> "OK"
+  | "spec_published" -> string_of_bool' (s_published_ok (t 0) (t 1))
   | "spec_iso_ok" -> string_of_bool' (s_iso_ok (t 0))
   | "spec_check_digits" -> string_of_text (s_check_digits (t 0) (t 1))
   | "spec_conforms" -> string_of_bool' (s_conforms (t 0) (t 1))
